@@ -88,7 +88,7 @@ def mc_configs(pid, tier):
     if pid == "C14":
         cfgs = [
             ("mc_lat_t2", base_consts(Tick=2, GMin=1, GMax=3, LatChoices={0, 2, 5}, MaxChoices={1, 4}, Offsets={0, 1},
-                                      RandomOrder=True, MaxMsgs=3, MaxSteps=4 if not q else 3, MaxLatCtl=2 if not q else 1)),
+                                      RandomOrder=True, MaxMsgs=3, MaxSteps=4 if not q else 3, MaxLatCtl=1)),
             ("mc_lat_t3", base_consts(Tick=3, GMin=0, GMax=4, LatChoices={1}, MaxChoices={2}, Offsets={0, 2},
                                       RandomOrder=False, MaxMsgs=3, MaxSteps=3, MaxLatCtl=1)),
             ("mc_lat_release", base_consts(Tick=2, GMin=1, GMax=3, LatChoices={5}, MaxChoices=set(), Offsets={0}, CtlOps={"release"},
